@@ -212,6 +212,20 @@ struct list_walk<fm::detail::small_free_memory_list>
             }
         }
     }
+
+    // the address exactly one past the node area of the first chunk (small list only)
+    inline u8* one_past_first_chunk(fm::detail::small_free_memory_list& l)
+    {
+        auto c = l.base_.next;
+        if (c == &l.base_)
+            return nullptr;
+        return reinterpret_cast<u8*>(c) + fm::detail::chunk_memory_offset + std::size_t(c->no_nodes) * l.node_size_;
+    }
+    template <class L>
+    inline u8* one_past_first_chunk(L&)
+    {
+        return nullptr;
+    }
     template <class List>
     struct list_kind
     {
